@@ -95,10 +95,19 @@ PrepareJoin(c, k) ==
      ELSE cache' = [cache EXCEPT ![c] = @ \cup {k}] /\ parses' = [parses EXCEPT ![c] = @ \o <<k, k>>]
   /\ UNCHANGED <<idle, size, held, nextC, dead, taken, closed, reg, nq>>
 
-\* the same through deadpool_postgres::Transaction (d = 1) or a nested transaction / savepoint (d = 2):
-\* the wrappers share the client's statement cache; BEGIN .. COMMIT travel on the client's connection
+\* the same through code that is generic over `GenericClient`, handed the pooled client
+PrepareG(c, k) ==
+  /\ c \in held /\ ~closed[c] /\ k \in Keys /\ Spend
+  /\ IF k \in cache[c]
+     THEN UNCHANGED <<cache, parses>>
+     ELSE cache' = [cache EXCEPT ![c] = @ \cup {k}] /\ parses' = [parses EXCEPT ![c] = Append(@, k)]
+  /\ UNCHANGED <<idle, size, held, nextC, dead, taken, closed, reg, nq>>
+
+\* the same through deadpool_postgres::Transaction (d = 1), a nested transaction / savepoint (d = 2), or a
+\* transaction handed to code generic over `GenericClient` (d = 3): the wrappers share the client's
+\* statement cache; BEGIN .. COMMIT travel on the client's connection
 TxPrepare(c, k, d) ==
-  /\ c \in held /\ ~closed[c] /\ k \in Keys /\ d \in {1, 2} /\ Spend
+  /\ c \in held /\ ~closed[c] /\ k \in Keys /\ d \in {1, 2, 3} /\ Spend
   /\ IF k \in cache[c]
      THEN UNCHANGED <<cache, parses>>
      ELSE cache' = [cache EXCEPT ![c] = @ \cup {k}] /\ parses' = [parses EXCEPT ![c] = Append(@, k)]
@@ -142,7 +151,8 @@ Next ==
   \/ \E plan \in Plans : Get(plan)
   \/ \E c \in Conns : Drop(c) \/ Return(c) \/ Take(c) \/ TakeBusy(c)
   \/ \E c \in Conns : \E k \in Keys : Prepare(c, k) \/ PrepareJoin(c, k)
-  \/ \E c \in Conns : \E k \in Keys : \E d \in {1, 2} : TxPrepare(c, k, d)
+  \/ \E c \in Conns : \E k \in Keys : \E d \in {1, 2, 3} : TxPrepare(c, k, d)
+  \/ \E c \in Conns : \E k \in Keys : PrepareG(c, k)
   \/ \E c1 \in Conns : \E c2 \in Conns : TakeBoth(c1, c2)
   \/ Clear \/ \E k \in Keys : Remove(k)
 Spec == Init /\ [][Next]_vars
